@@ -115,3 +115,89 @@ Lemma type_patterns_pinned :
   RE_END_CONTROL = [94;40;63;80;60;101;110;100;62;101;110;100;41;40;92;115;124;95;41;40;63;80;60;116;121;112;101;62;40]%N ++ join [124] controls ++ [41;41;36]%N /\
   RE_SELECT = [94;40;63;80;60;115;101;108;101;99;116;95;99;111;109;109;97;110;100;62;40]%N ++ join [124] selects ++ [41;41;32;40;63;80;60;108;105;115;116;95;110;97;109;101;62;92;83;43;41;40;32;40;63;80;60;115;112;101;99;105;102;121;95;111;116;104;101;114;62;40;111;114;32;115;112;101;99;105;102;121;32;111;116;104;101;114;124;111;114;95;111;116;104;101;114;124;111;114;32;111;116;104;101;114;41;41;41;63;36]%N.
 Proof. repeat split; vm_compute; reflexivity. Qed.
+
+Lemma ceq_sym a b : ceq a b = ceq b a.
+Proof. unfold ceq. apply N.eqb_sym. Qed.
+Lemma prefix_app_ext a' : forall s r l, prefix a' s = Some r -> prefix a' (s ++ l) = Some (r ++ l).
+Proof.
+  induction a' as [|x a IH]; intros s r l H; cbn [prefix] in *.
+  - inversion H; subst. reflexivity.
+  - destruct s as [|y s']; [discriminate|]. cbn [app]. destruct (ceq x y); [apply IH; exact H|discriminate].
+Qed.
+(* if a' is not a prefix of s and s is not a prefix of a', they differ inside s: appending to s changes nothing *)
+Lemma prefix_none_ext a' : forall s l, prefix a' s = None -> starts_with s a' = false -> prefix a' (s ++ l) = None.
+Proof.
+  induction a' as [|x a IH]; intros s l H Hs; cbn [prefix] in *; [discriminate|].
+  destruct s as [|y s']; [unfold starts_with in Hs; cbn in Hs; discriminate|]. cbn [app].
+  unfold starts_with in Hs. cbn [prefix] in Hs. rewrite (ceq_sym y x) in Hs.
+  destruct (ceq x y); [|reflexivity]. apply IH; [exact H|]. unfold starts_with. exact Hs.
+Qed.
+
+Definition conflict_free_at (a a' : str) : bool :=
+  seqb a' a ||
+  match prefix a' (a ++ [32]) with
+  | Some (c :: _) => negb (c =? 32)
+  | Some [] => true
+  | None => negb (starts_with (a ++ [32]) a')
+  end.
+Definition no_conflict (a : str) (table : list str) : bool := forallb (conflict_free_at a) table.
+Definition sel_k (a r : str) : option tkind :=
+  match r with
+  | 32 :: r1 =>
+      let '(w, r2) := span nonspace r1 in
+      match w with
+      | [] => None
+      | _ => if at_end r2 then Some (TSelect a w false)
+             else match r2 with
+                  | 32 :: r3 => if existsb (fun o => match prefix o r3 with Some r4 => at_end r4 | None => false end) OR_OTHER then Some (TSelect a w true) else None
+                  | _ => None
+                  end
+      end
+  | _ => None
+  end.
+Lemma parse_select_unfold table t : parse_select table t = first_alias table t sel_k.
+Proof. reflexivity. Qed.
+Lemma not_space_head c r : (c =? 32) = false -> sel_k [] (c :: r) = None /\ forall a, sel_k a (c :: r) = None.
+Proof. intro H. assert (G : forall a, sel_k a (c :: r) = None). { intro a. unfold sel_k. destruct c as [|p]; try reflexivity. do 6 (destruct p; try reflexivity). discriminate. } split; [apply G|exact G]. Qed.
+Lemma select_step_none a a' l : seqb a' a = false -> l <> [] -> forallb nonspace l = true -> conflict_free_at a a' = true ->
+  match prefix a' (a ++ [32] ++ l) with Some rest => sel_k a' rest | None => None end = None.
+Proof.
+  intros Hne Hl Hf Hc. unfold conflict_free_at in Hc. rewrite Hne in Hc. cbn [orb] in Hc. rewrite app_assoc.
+  destruct (prefix a' (a ++ [32])) as [[|c r]|] eqn:E.
+  - rewrite (prefix_app_ext a' _ _ l E). cbn [app]. destruct l as [|x l']; [congruence|]. cbn [forallb] in Hf. apply andb_true_iff in Hf as [Hx _].
+    assert (Hx32 : (x =? 32) = false). { destruct (x =? 32) eqn:Ex; [|reflexivity]. apply N.eqb_eq in Ex. subst x. discriminate. }
+    apply (proj2 (not_space_head x l' Hx32)).
+  - rewrite (prefix_app_ext a' _ _ l E). cbn [app]. apply negb_true_iff in Hc. apply (proj2 (not_space_head c (r ++ l) Hc)).
+  - apply negb_true_iff in Hc. rewrite (prefix_none_ext a' _ l E Hc). reflexivity.
+Qed.
+Lemma span_all_nonspace l : forallb nonspace l = true -> span nonspace l = (l, []).
+Proof. induction l as [|c r IH]; intro H; [reflexivity|]. cbn [forallb] in H. apply andb_true_iff in H as [Hc Hr]. cbn [span]. rewrite Hc, (IH Hr). reflexivity. Qed.
+(* a command that no other command of the table can be confused with (computable condition) is recognised with EVERY list name *)
+Theorem select_complete table a l : In a table -> no_conflict a table = true -> l <> [] -> forallb nonspace l = true ->
+  parse_select table (a ++ [32] ++ l) = Some (TSelect a l false).
+Proof.
+  intros Hin Hnc Hl Hf. rewrite parse_select_unfold. induction table as [|a' more IH]; [destruct Hin|].
+  cbn [first_alias]. unfold no_conflict in Hnc. cbn [forallb] in Hnc. apply andb_true_iff in Hnc as [Hc Hmore].
+  destruct (seqb_spec a' a) as [->|Hne].
+  - rewrite prefix_app. cbn [app sel_k]. rewrite (span_all_nonspace l Hf). destruct l; [congruence|]. reflexivity.
+  - assert (Hn : seqb a' a = false) by (destruct (seqb_spec a' a); [congruence|reflexivity]).
+    pose proof (select_step_none a a' l Hn Hl Hf Hc) as Hs. destruct Hin as [E|Hin]; [congruence|].
+    destruct (prefix a' (a ++ [32] ++ l)) as [rest|]; [rewrite Hs|]; apply IH; assumption.
+Qed.
+(* which commands of the regenerated table satisfy the condition *)
+Definition unambiguous_selects : list str := filter (fun a => no_conflict a selects) selects.
+Definition not_opener (a : str) : bool :=
+  match prefix [101;110;100] a with None => negb (starts_with a [101;110;100]) | Some _ => false end &&
+  match prefix [98;101;103;105;110] a with None => negb (starts_with a [98;101;103;105;110]) | Some _ => false end.
+Lemma selects_are_not_openers : forallb not_opener selects = true.
+Proof. vm_compute. reflexivity. Qed.
+Theorem unambiguous_select_recognised a l : In a unambiguous_selects -> l <> [] -> forallb nonspace l = true ->
+  classify controls selects (a ++ [32] ++ l) = TSelect a l false.
+Proof.
+  intros Hin Hl Hf. unfold unambiguous_selects in Hin. apply filter_In in Hin as [Hin Hnc].
+  pose proof selects_are_not_openers as Hno. rewrite forallb_forall in Hno. specialize (Hno a Hin). unfold not_opener in Hno. apply andb_true_iff in Hno as [He Hb].
+  unfold classify, parse_end, parse_begin, sep_then.
+  destruct (prefix [101;110;100] a) eqn:E1; [discriminate|]. apply negb_true_iff in He. rewrite (prefix_none_ext _ a ([32] ++ l) E1 He).
+  destruct (prefix [98;101;103;105;110] a) eqn:E2; [discriminate|]. apply negb_true_iff in Hb. rewrite (prefix_none_ext _ a ([32] ++ l) E2 Hb).
+  rewrite (select_complete selects a l Hin Hnc Hl Hf). reflexivity.
+Qed.
